@@ -343,23 +343,29 @@ theorem mergeOne_rawK {cfg : GenCfg} {e : EqEnv} {first : Bool} {fields fields' 
       split at h
       · cases h
       · split at h
-        · cases h
+        · simp only [pure, Except.pure, Except.ok.injEq] at h; subst h; exact hf
         · split at h
-          · simp only [pure, Except.pure, Except.ok.injEq] at h; subst h; exact hf
-          · simp only [pure, Except.pure, Except.ok.injEq] at h; subst h
-            apply hf.set
-            simp only [rawK]
-            exact merged_rawK hd hin
+          · cases h
+          · split at h
+            · simp only [pure, Except.pure, Except.ok.injEq] at h; subst h; exact hf
+            · simp only [pure, Except.pure, Except.ok.injEq] at h; subst h
+              apply hf.set
+              simp only [rawK]
+              exact merged_rawK hd hin
     · simp only [bind, Except.bind] at h
       split at h
       · cases h
       · split at h
-        · cases h
+        · simp only [pure, Except.pure, Except.ok.injEq] at h; subst h; exact hf
         · split at h
-          · simp only [pure, Except.pure, Except.ok.injEq] at h; subst h; exact hf
-          · simp only [pure, Except.pure, Except.ok.injEq] at h; subst h
-            apply hf.set
-            exact merged_rawK hd horig
+          · cases h
+          · split at h
+            · simp only [pure, Except.pure, Except.ok.injEq] at h; subst h
+              apply hf.set
+              exact hd
+            · simp only [pure, Except.pure, Except.ok.injEq] at h; subst h
+              apply hf.set
+              exact merged_rawK hd horig
 
 theorem foldlM_mergeOne_rawK {cfg : GenCfg} {e : EqEnv} {first : Bool} (model : Fields)
     (hmodel : ∀ kv ∈ model, rawK cfg kv.2 = true) :
